@@ -204,6 +204,30 @@ func registerFormatBool(e *Engine) {
 	}
 }
 
+// reflect.TypeOf(x).String() / .Kind() are used by the scanner to name the Go type of an enum
+// value: a tiny model - the reflect.Type is a handle on the go/types type of the dynamic value
+func registerReflectTypeOf(e *Engine) {
+	e.intrinsics["reflect.TypeOf"] = func(x *Exec, fn *ssa.Function, a []Value) (Value, bool) {
+		iv := a[0].(*IfaceVal)
+		if iv.T == nil {
+			return nilIface, true
+		}
+		rt := x.eng.findType("reflect", "rtype")
+		if rt == nil {
+			panic(unsupported("reflect.rtype not in program"))
+		}
+		return &IfaceVal{T: types.NewPointer(rt), V: mkPtr(&Cell{V: &NativeVal{V: iv.T}})}, true
+	}
+	e.intrinsics["(*reflect.rtype).String"] = func(x *Exec, fn *ssa.Function, a []Value) (Value, bool) {
+		nv, ok := x.deref(a[0].(*PtrVal)).Load().(*NativeVal)
+		if !ok {
+			panic(unsupported("reflect.Type receiver is not a modelled handle"))
+		}
+		t := nv.V.(types.Type)
+		return mkStr(types.TypeString(t, func(p *types.Package) string { return p.Name() })), true
+	}
+}
+
 func mkSliceOfIface(sl *SliceVal) Value {
 	var vs []Value
 	for i := 0; i < sl.Len; i++ {
